@@ -1402,23 +1402,14 @@ pub fn array_from(
                                 )?;
 
                                 if let JsValue::Object(result_obj) = result_val {
-                                    let done_key = interp.property_key("done");
-                                    let value_key = interp.property_key("value");
-
-                                    let done = result_obj
-                                        .borrow()
-                                        .get_property(&done_key)
-                                        .map(|v| v.to_boolean())
-                                        .unwrap_or(false);
-
-                                    if done {
+                                    if interp.iterator_done(&result_obj)? {
                                         break;
                                     }
 
-                                    let elem = result_obj
-                                        .borrow()
-                                        .get_property(&value_key)
-                                        .unwrap_or(JsValue::Undefined);
+                                    let Guarded {
+                                        value: elem,
+                                        guard: _elem_guard,
+                                    } = interp.iterator_value(&result_obj)?;
                                     elem.guard_by(&guard);
 
                                     let mapped = if let Some(ref map) = map_fn {
